@@ -1,5 +1,5 @@
 From Coq Require Import Extraction ExtrOcamlBasic.
 From PP Require Import Fold.FoldDefs.
 Extraction "model.ml" Z.of_N Z.to_N Z.of_nat Z.to_nat N.of_nat N.to_nat N.add N.mul Z.opp
-  decode_utf8 wrap_lines foldfilter foldfilter_tool check_wrap utf8_valid
-  fold_default_width fold_default_keep fold_default_delims fold_s_sets_keep.
+  decode_utf8 wrap_lines foldfilter foldfilter_tool foldfilter_cli foldfilter_cli2 parse_delims foldfilter_stream line_child parse_width check_wrap utf8_valid
+  fold_feeder_strip_cr fold_collector_strip_cr fold_default_width fold_default_keep fold_default_delims fold_s_sets_keep.
